@@ -5,11 +5,9 @@ go 1.21
 require (
 	github.com/elastic/go-libaudit/v2 v2.0.0
 	github.com/kballard/go-shellquote v0.0.0-20180428030007-95032a82bc51
+	golang.org/x/sys v0.11.0
 )
 
-require (
-	golang.org/x/sys v0.11.0 // indirect
-	gopkg.in/yaml.v3 v3.0.1 // indirect
-)
+require gopkg.in/yaml.v3 v3.0.1 // indirect
 
 replace github.com/elastic/go-libaudit/v2 => /repo
